@@ -7,7 +7,7 @@ import re
 from .. import stream
 from . import common
 
-FACTS = ["file_codegen_src_include_rule_rs", "file_codegen_src_misc_rs", "file_codegen_src_common_rs"]
+FACTS = common.CODEGEN_FILES
 
 
 def decls(code):
